@@ -149,7 +149,12 @@ func genParams(r *rand.Rand, idx uint64, thorough bool) params {
 		}
 	}
 	if p.Video == "h264" && r.IntN(8) == 0 {
-		p.H264Multi = true
+		// STAP-A{SPS,PPS} + IDR keyframes.  Not where a packet can be missing
+		// for good (gap-lost, gap-mixed, late-start): when the STAP-A is lost
+		// the IDR's first packet is a partition head no RTP-level recorder can
+		// tell from the start of a frame, so "complete frames only" and "no
+		// frame lost" cannot both be met there.
+		p.H264Multi = p.Class != "gap-lost" && p.Class != "gap-mixed" && p.Class != "late-start"
 	}
 	if p.Video == "" {
 		p.SRV, p.SeqWrapV, p.TsWrapV, p.DelayV = "", false, false, 0
@@ -1136,6 +1141,15 @@ func (t *track) describeInexact1(d []byte, after int) (clause string, fi int, wh
 			best, bestL = i, l
 		}
 	}
+	if bestL < len(d) && len(d) >= 8 {
+		// the end of a frame without its beginning (H264: the Annex-B start
+		// code of a NAL unit inside the frame)
+		for i := range t.frames {
+			if fd := t.frames[i].data; len(fd) > len(d) && lcs(d, fd) == len(d) {
+				return "frame-truncated", i, fmt.Sprintf("only the last %d of the %d bytes of frame %d (%d packets) were written", len(d), len(fd), i, t.frames[i].pn)
+			}
+		}
+	}
 	if best < 0 {
 		// maybe it is the tail of a frame
 		for i := range t.frames {
@@ -1160,9 +1174,9 @@ func (t *track) describeInexact1(d []byte, after int) (clause string, fi int, wh
 			}
 			return "frame-padded", best, fmt.Sprintf("frame %d was sent as %d bytes and written as %d bytes: %d zero bytes inserted at offset %d", best, len(f.data), len(d), len(d)-len(f.data), p)
 		}
-		if rec, k := t.hasRecovered(f); rec {
+		if rec, k := t.hasRecovered(f); rec && longestZeroRun(d) >= 64 {
 			// several recovered packets, several runs of padding
-			return "recovered-frame-padded", best, fmt.Sprintf("frame %d was sent as %d bytes in %d packets and written as %d bytes (first difference at offset %d); packet %d of the frame (seqno %d) was withheld from Write and served by GetPacket", best, len(f.data), f.pn, len(d), p, k, t.pkts[f.p0+k].seq)
+			return "recovered-frame-padded", best, fmt.Sprintf("frame %d was sent as %d bytes in %d packets and written as %d bytes (first difference at offset %d, a run of %d zero bytes inside); packet %d of the frame (seqno %d) was withheld from Write and served by GetPacket", best, len(f.data), f.pn, len(d), p, longestZeroRun(d), k, t.pkts[f.p0+k].seq)
 		}
 		return "frame-corrupt", best, fmt.Sprintf("a %d byte sample starting like frame %d (%d bytes, %d packets) for %d bytes", len(d), best, len(f.data), f.pn, p)
 	}
